@@ -78,6 +78,17 @@ CLAIMED.update({
         design="6/C17"),
 })
 
+CLAIMED.update({
+    "C20": dict(
+        technique="Lean 4 proof (decision logic of match_machine as first-match + four constraints; equational non-interference of URL renderers) + three-way correspondence (real NetRC/URL, model, urllib-based spec) + end-to-end password grep",
+        text=("C20_match_iff, C20_matches_spec, C20_schemeless_not_http, C20_url_precedence, C20_applied_only_if_match and the two "
+              "non-interference theorems are proved for all machine lists and URLs of the modelled grammar; tokeniser, accumulation "
+              "over auth.conf + auth.conf.d, matching and the renderers are compared with the real code; real end-to-end runs with "
+              "unique passwords (in the URL / in the auth file) are searched for the password in logs, file names and file contents."),
+        note="urlparse modelled for [scheme://][userinfo@]host[:port][/path]; logging of malformed config lines excluded (S11). Trusted: Lean kernel, model, harness.",
+        design="6/C20"),
+})
+
 NOT_YET = {}
 
 
